@@ -148,6 +148,8 @@ def check_history(case, sess: Session):
                 r = env.run(t["agent"], t["text"], t["turn_id"], plan={"ops": [{"kind": "Speak"}, {"kind": "EditGraph"}], "deltas": t["deltas"]})
             sess.evaluations += 1
             sess.count("turns_run")
+            if ti == 0:
+                sess.sample({"t4_cfg": case["cfg"]["t4"], "first_turn": {k: t[k] for k in ("turn_id", "agent", "fault", "exc", "t4_enabled", "store_kind")}, "proposed_deltas": t["deltas"][:4], "turns_in_history": len(case["turns"])})
             if r["exc"]:
                 mech = "store-exception-escaped-run_turn" if (st is real_store and t["fault"] != "none") else "turn-raises"
                 sess.violation(f"{mech}:{r['exc_type']}", tcase, r["tb"][-400:])
